@@ -453,7 +453,7 @@ func c18Result(re *regexp2.Regexp, in string) (s string) {
 	return sb.String()
 }
 
-func allStrings(alpha []rune, maxLen int) []string {
+func c18AllStrings(alpha []rune, maxLen int) []string {
 	out := []string{""}
 	prev := []string{""}
 	for l := 1; l <= maxLen; l++ {
@@ -578,7 +578,7 @@ func legC18Spellings(c *Ctx) {
 		"inputs: all strings of length <= 3 over {a,A,b,newline,space} plus longer samples; non-trivial = reference compiles (distinct by pattern+options)")
 	n := c.N(120, 2500)
 	alpha := []rune{'a', 'A', 'b', '\n', ' '}
-	inputs := allStrings(alpha, 3)
+	inputs := c18AllStrings(alpha, 3)
 	inputs = append(inputs, "ab ab", "aAbB\nab", "a b\n#c", "éÉab", "abab", "B a\nA")
 	var st c18Stats
 	var usedX, usedN, usedOnOff, usedRef int
@@ -702,7 +702,7 @@ func legC18Harvest(c *Ctx) {
 			}
 		}
 		alpha = append(alpha, '\n')
-		inputs := append(allStrings(alpha, 3), p, strings.ToUpper(p), "a b\nc")
+		inputs := append(c18AllStrings(alpha, 3), p, strings.ToUpper(p), "a b\nc")
 		c18CheckPattern(c, "harvested", p, p, "", 0, inputs, &st, true)
 	}
 	c.Hist("programs")
